@@ -102,10 +102,10 @@ pub mod emit {
     use super::*;
     crate::harnesses! {
         /// emit functions into a buffer of exactly the documented size: up to 17 decimal digits, every f64 scientific exponent,
-        /// min_significant_digits 55..=60, breaks -16..=-1 / 1..=16.
+        /// min_significant_digits 58..=59, breaks -16..=-1 / 1..=16.
         /// @prop C09 C14
         /// @feat default radix_format
-        /// @bound mantissa < 10^17; sci_exp in -324..=308; min_significant_digits in 55..=60; breaks in -16..=-1 / 1..=16
+        /// @bound mantissa < 10^17; sci_exp in -324..=308; mantissa without trailing zero; min_significant_digits in 58..=59; breaks in -16..=-1 / 1..=16
         /// @fn lexical-write-float::options::Options::buffer_size_const
         /// @fn lexical-write-float::algorithm::{write_float_scientific, write_float_positive_exponent, write_float_negative_exponent}
         /// @fn lexical-write-float::shared::write_exponent
@@ -116,9 +116,9 @@ pub mod emit {
         fn emit_exact_documented_buffer() {
             let mant: u64 = any();
             let sci: i32 = any();
-            assume(mant >= 1 && mant < 100_000_000_000_000_000);
+            assume(mant >= 1 && mant < 100_000_000_000_000_000 && mant % 10 != 0);   // to_decimal's postcondition: no trailing zero
             assume(sci >= -324 && sci <= 308);
-            let mind: usize = any(); assume(mind >= 55 && mind <= 60);
+            let mind: usize = any(); assume(mind >= 58 && mind <= 59);
             let nb: i32 = any(); assume(nb >= -16 && nb <= -1);
             let pb: i32 = any(); assume(pb >= 1 && pb <= 16);
             let o = opts_for(mind, 0, nb, pb, false);
